@@ -149,6 +149,26 @@ def exact_class(*dicts):
   return True
 
 
+def error_growth(den, n):
+  """amp[i] = max(1, |h[0]| + .. + |h[i]|), h the impulse response of 1 / den
+  (den: {delay: coefficient}), computed in exact rationals."""
+  d = {k: frac(v) for k, v in den.items() if v != 0}
+  if not d:
+    return [1.0] * n
+  p = min(d)
+  d = {k - p: v for k, v in d.items()}
+  h, amp, acc_sum = [], [], Fraction(0)
+  for i in range(n):
+    acc = Fraction(1 if i == 0 else 0)
+    for k, a in d.items():
+      if k and i - k >= 0:
+        acc -= a * h[i - k]
+    h.append(acc / d[0])
+    acc_sum += abs(h[-1])
+    amp.append(float(max(1, acc_sum)))
+  return amp
+
+
 def numeric_recursion(b, a, x, mem, zero):
   ys = []
   for n in range(len(x)):
@@ -427,6 +447,7 @@ def run_case(ctx, case):
                  for v in coeffs) and g in (1, -1)
              and not isinstance(zspec, float))
   ctx.count("class:" + ("E" if exact else "T"))
+  amp = None if exact else error_growth(raw_den, len(want))
   if samples == "bigint" and exact and n:
     ctx.count("big-integer-samples-compared-exactly")
   for i, (gv, wv) in enumerate(zip(got, want)):
@@ -438,8 +459,16 @@ def run_case(ctx, case):
     if exact:
       ok = gl == wv
     else:
-      ok, worst = lin_close(gl, wv, 1e-9)
-      ctx.err("toleranced-forms", worst, 1e-9)
+      # the float recursion amplifies its own rounding errors by at most the
+      # running sum |h[0]| + .. + |h[i]| of the impulse response of 1 / den
+      # (thorough seed 91: an unstable denominator, 1e-8 off after 8 samples);
+      # where that bound leaves less than four digits nothing is judged
+      tol = 1e-9 * amp[i]
+      if tol > 1e-4:
+        ctx.count("class-T:ill-conditioned-tail-not-judged")
+        break
+      ok, worst = lin_close(gl, wv, tol)
+      ctx.err("toleranced-forms", worst, tol)
     if not ok:
       if frac_gain:   # (expr)/p/q instead of (expr)/(p/q): off by q*q exactly
         frac_gain = lin_close(gl * (g.denominator ** 2), wv, 1e-9)[0]
